@@ -30,7 +30,8 @@ class AmpGenTransformer(Transformer):
         return True
 
     def checkfixed(self, lines):
-        val = int(lines[0])
+        # the grammar takes any number here (2, 2.0, 1e0, ...)
+        val = float(lines[0])
         # AmpGen convention: 0 is free
         return val > 0
 
